@@ -96,7 +96,7 @@ func GenInput(t *simrt.Tape, class string) (name string, text string) {
 	case InSyntax:
 		b.WriteString([]string{"start = = ;\n", "start = ( \"a\" ;\n", "start \"a\";\n", "TOK = ;\nstart = TOK;\n"}[t.Draw(4)])
 	case InSemantic:
-		b.WriteString([]string{"start = UNDEFINED ;\n", "NUM = /[0-9]+/;\nNUM = /[0-9]/;\nstart = NUM;\n", "rule = \"a\";\n", "start = other;\n", "AA = $NOPE;\nstart = AA;\n"}[t.Draw(5)])
+		b.WriteString([]string{"start = UNDEFINED ;\n", "NUM = /[0-9]+/;\nNUM = /[0-9]/;\nstart = NUM;\n", "rule = \"a\";\n", "start = other;\n", "AA = $NOPE;\nstart = AA;\n", "start = aa bb cc dd;\n", "start = lhs \"=\" rhs | other;\nlhs = \"x\";\n"}[t.Draw(7)])
 	case InTokenConflict:
 		b.WriteString([]string{"AA = /[a-z]+/;\nBB = /[a-c]+/;\nstart = AA BB;\n", "XX = /ab*/;\nYY = /a+/;\nstart = XX | YY;\n"}[t.Draw(2)])
 	case InLALRConflict:
@@ -164,11 +164,15 @@ func GenMultiDiag(t *simrt.Tape) string {
 	var items []string
 	m := 2 + t.Draw(5)
 	for i := 0; i < m; i++ {
-		switch t.Draw(3) {
+		switch t.Draw(4) {
 		case 0:
 			items = append(items, names[t.Draw(len(names))])
 		case 1:
 			items = append(items, []string{"U1", "U2", "U3", "U4"}[t.Draw(4)])
+		case 2:
+			// rule names that are used but never defined (several of them: a diagnostic cannot be
+			// reordered unless there are at least two of its kind)
+			items = append(items, []string{"ua", "ub", "uc", "ud", "ue"}[t.Draw(5)])
 		default:
 			items = append(items, strs[t.Draw(len(strs))])
 		}
